@@ -23,7 +23,7 @@ func init() {
 const mxRule = "case = one transaction of the tx matrix: message type {send, node stake, node edit-stake, begin-unstake, unjail, app stake/edit, app unstake, app transfer, change-param, DAO transfer/burn} x signing-key relation {owner/operator, current output address, declared-but-unrelated signer, unrelated key, impersonation of owner/sender, ACL/DAO owner vs stranger} x signature {valid, corrupted, missing, signed for another chain id, forged by another key under the declared public key, another key presenting its own public key} x fee {required, above, below, zero} (+ a signer that cannot pay), on a genesis with custodial, non-custodial and jailed nodes, all features active; executed by the real app with decoded state snapshots before/after every DeliverTx. "
 
 func checkMatrix(r *ev.Run, id string) {
-	nScripts := r.N(8, 250)
+	nScripts := r.N(16, 250)
 	perScript := r.N(80, 160)
 	hs, hf := 35, 10
 	if id == "C15" {
